@@ -550,6 +550,60 @@ func runC06(c *Ctx) {
 	}
 	c.Lap("negative")
 
+	// ---- layouts outside the property's grammar that the validity predicate of the proof (Layout.wf_rest,
+	// wf_ifrest) admits: later statements of a block indented more than the block but left of what the
+	// previous statement left open; else/elif left of the enclosing block. Model and fc must agree.
+	nOver := c.Pick(120, 1500)
+	overSeeds := make([]*Rng, nOver)
+	for i := range overSeeds {
+		overSeeds[i] = rng.Fork()
+	}
+	Parallel(nOver, func(i int) {
+		r := overSeeds[i]
+		cs := cases[r.Intn(len(cases))]
+		if cs == nil || cs.Out == "" || cs.Tree == "" {
+			return
+		}
+		o := c06RandOpt(r)
+		o.Over = true
+		l := cs.Prog.render(r.Fork(), o)
+		if l.feat["over:later-statement-right-of-block"]+l.feat["over:else-left-of-enclosing-block"] == 0 {
+			return
+		}
+		src := string(l.b)
+		rk := h.transpile(src)
+		out, ok := c06Out(rk)
+		t := h.modelTree(src, cs.Intern)
+		c.Eval(src, true)
+		c.Compared(1)
+		for f, n := range l.feat {
+			if strings.HasPrefix(f, "over:") {
+				c.CountN("layout:"+f, n)
+			}
+		}
+		fcSame := ok && out == cs.Out
+		modelSame := t == cs.Tree
+		switch {
+		case rk.Died:
+			c.Violate("crash", "fc crashed on an over-indented layout", map[string]any{"src": src}, false)
+		case fcSame && modelSame:
+			c.Count("over:same-output-and-tree")
+		case !modelSame:
+			// the renderer's bound computation and the model disagree: harness defect, not a finding
+			c.Count("over:model-sees-other-structure")
+			c.Note("over-indent layout not valid for the model (%s): %s", cs.Prog.Name, c06Brief(t))
+			if fcSame {
+				c.Disagree()
+				c.Violate("corr-blocks", "the model parser recovers a different block structure from an over-indented layout that fc translates identically", map[string]any{"canonical_src": cs.Canon, "layout_src": src, "model": c06Brief(t)}, true)
+			}
+		default:
+			c.Disagree()
+			c.Violate("corr-blocks", "a layout that the validity predicate of layout_invariance admits (statement right of its block / else left of the enclosing block) changes fc's result: "+rk.Err,
+				map[string]any{"program": cs.Prog.Name, "canonical_src": cs.Canon, "layout_src": src, "layout_err": rk.Err}, true)
+		}
+	})
+	c.Lap("over-indent")
+
 	// ---- (iv) hazard stream: finding (n)
 	hazFail, hazPass := 0, 0
 	var hazExample map[string]any
